@@ -7,6 +7,7 @@ W=/tmp/wt-$P
 [ "$SUF" = "b" ] && W=/tmp/w2-$P
 [ "$SUF" = "c" ] && W=/tmp/w3-$P
 [ "$SUF" = "d" ] && W=/tmp/w4-$P
+[ "$SUF" = "e" ] && W=/tmp/w5-$P
 cd "$W" || exit 2
 [ -f SEEDED/patch.diff ] || { echo "no patch.diff"; exit 2; }
 # git stash is shared between worktrees (agents ran concurrently): start from a clean src and apply the recorded patch
